@@ -61,6 +61,13 @@ func c06One(c *Ctx, b *Batch, pkg string, cs respCase, respType string, ex *exec
 		fail("marshal-error", fmt.Sprintf("marshaling a decoded value failed: %v", e), nil)
 		return
 	}
+	if _, ok := r["reunmarshalErr"]; ok && cs.Asym {
+		delete(r, "reunmarshalErr") // what a marshaler-only binding wrote need not be readable by default JSON
+		r["roundtripEqual"] = true
+	}
+	if cs.Asym {
+		r["roundtripEqual"] = true // value equality is not claimed for asymmetric bindings
+	}
 	if e, ok := r["reunmarshalErr"]; ok {
 		fail("remarshaled-does-not-decode", fmt.Sprintf("Unmarshal(Marshal(v)) failed: %v", e), r["remarshal"])
 		return
@@ -96,6 +103,8 @@ func c06One(c *Ctx, b *Batch, pkg string, cs respCase, respType string, ex *exec
 	if dupKey != "" {
 		fail("duplicate-key", fmt.Sprintf("marshaled value carries key %q twice in one object", dupKey), rm)
 	}
+	c06StructuralOnly = cs.Asym
+	defer func() { c06StructuralOnly = false }()
 	if msg := sameUpToNullLoss(orig, tree, "$"); msg != "" {
 		cls := "remarshal-differs"
 		switch {
@@ -161,6 +170,9 @@ func parseCountingKeys(s string) (dup string, v any, err error) {
 
 // sameUpToNullLoss: b is a re-marshaling of a: equal up to key order; where a has null, b may have null or
 // the zero value of a non-pointer type ("" / 0 / false / {} / zero struct with null-ish members); nothing else
+// c06StructuralOnly: compare shapes and keys, not scalar values (programs with asymmetric bindings)
+var c06StructuralOnly bool
+
 func sameUpToNullLoss(a, b any, path string) string {
 	if a == nil {
 		switch x := b.(type) {
@@ -221,6 +233,9 @@ func sameUpToNullLoss(a, b any, path string) string {
 			}
 		}
 	default:
+		if c06StructuralOnly {
+			return ""
+		}
 		if !sameScalar(a, b, true) {
 			aj, _ := json.Marshal(a)
 			bj, _ := json.Marshal(b)
